@@ -43,8 +43,12 @@ def a_formula(ck, F):
     val = from_expr(F, b, expr_of(F, b, s['rv']['a']) if s['rv']['r'] == 'use' else _expr_rv(F, b, s['rv'], 0, {}))
     got = canon(val)
     want = canon(spec_dequant(Ltree, Q))
-    if got == want:
-        ck.ok('A', 'coefficient = clamp(sgn(L)*(Q*(2|L|+1) - [Q even]), -2048, 2047)', where_of(b, bb, s['span']))
+    tab = None
+    if got != want:
+        # not the same canonical form: the domain is finite (Q in 0..31, L in -1024..1023), so decide equality of the two expression trees on it
+        tab = _tabulate_equal(val, spec_dequant(Ltree, Q), Ltree, Q)
+    if got == want or tab is None:
+        ck.ok('A', 'coefficient = clamp(sgn(L)*(Q*(2|L|+1) - [Q even]), -2048, 2047)' + ('' if got == want else ' (another spelling; equal on all 32 x 2048 (Q, L) pairs)'), where_of(b, bb, s['span']))
     else:
         ck.violation('A', 'A : inverse_rle : dequantisation formula', where_of(b, bb, s['span']),
                      'inverse_rle stores %s ; H.263 6.2.1 reconstruction is %s' % (show(got)[:500], show(want)[:500]))
@@ -65,6 +69,65 @@ def a_formula(ck, F):
         ck.ok('A', 'stored at block_data[zig_y][zig_x] (row from the y component)', where_of(b, bb, s['span']))
     else:
         ck.violation('A', 'A : inverse_rle : index order', where_of(b, bb, s['span']), 'block_data is indexed with DEZIGZAG components %s, expected [y, x] = [1, 0]' % comps)
+
+
+def _ev_tree(e, env):
+    """value of a canon-input expression tree on integers (Rust semantics for the casts; None = not evaluable)"""
+    k = e[0]
+    if e in env: return env[e]
+    if k == 'c': return e[1] if isinstance(e[1], int) and not isinstance(e[1], bool) else (int(e[1]) if isinstance(e[1], bool) else None)
+    if k == 'cast':
+        v = _ev_tree(e[2], env)
+        if v is None: return None
+        ty = e[1]
+        bits = {'u8': 8, 'u16': 16, 'u32': 32, 'u64': 64, 'usize': 64, 'i8': 8, 'i16': 16, 'i32': 32, 'i64': 64, 'isize': 64}.get(ty)
+        if bits is None: return None
+        v &= (1 << bits) - 1
+        if ty[0] == 'i' and v >> (bits - 1): v -= 1 << bits
+        return v
+    if k == 'ite':
+        c = _ev_tree(e[1], env)
+        return None if c is None else _ev_tree(e[2] if c else e[3], env)
+    if k == 'op' and len(e) == 4:
+        a, c = _ev_tree(e[2], env), _ev_tree(e[3], env)
+        if a is None or c is None: return None
+        op = e[1].replace('WithOverflow', '').replace('Unchecked', '')
+        try:
+            f = {'Add': lambda: a + c, 'Sub': lambda: a - c, 'Mul': lambda: a * c, 'BitAnd': lambda: a & c, 'BitOr': lambda: a | c, 'BitXor': lambda: a ^ c,
+                 'Shl': lambda: a << c, 'Shr': lambda: a >> c, 'Eq': lambda: int(a == c), 'Ne': lambda: int(a != c), 'Lt': lambda: int(a < c), 'Le': lambda: int(a <= c),
+                 'Gt': lambda: int(a > c), 'Ge': lambda: int(a >= c),
+                 'Div': lambda: (abs(a) // abs(c)) * (1 if (a >= 0) == (c >= 0) else -1), 'Rem': lambda: a - c * ((abs(a) // abs(c)) * (1 if (a >= 0) == (c >= 0) else -1))}.get(op)
+            return None if f is None else f()
+        except (ZeroDivisionError, ValueError): return None
+    if k == 'un' and len(e) == 3:
+        a = _ev_tree(e[2], env)
+        if a is None: return None
+        return {'Neg': -a, 'Not': int(not a) if a in (0, 1) else ~a}.get(e[1])
+    if k == 'call':
+        args = [_ev_tree(x, env) for x in e[2:]]
+        if any(x is None for x in args): return None
+        n = e[1]
+        if n == 'abs': return abs(args[0])
+        if n == 'sgn': return (args[0] > 0) - (args[0] < 0)
+        if n == 'clamp' and len(args) == 3: return max(args[1], min(args[2], args[0]))
+        if n == 'min': return min(args)
+        if n == 'max': return max(args)
+        if n in ('Mul', 'Add', 'Sub'): return {'Mul': args[0] * args[1], 'Add': args[0] + args[1], 'Sub': args[0] - args[1]}[n]
+    return None
+
+
+def _tabulate_equal(got, want, Ltree, Q):
+    """None when the two trees agree for every quantizer 0..31 and level -1024..1023; else a description of the first difference"""
+    def subst(e):
+        # the level leaf appears under a cast in the code (level as i32): evaluate it through env on the canonical level tree
+        return e
+    for q in range(0, 32):
+        for l in range(-1024, 1024):
+            env = {Ltree: l, Q: q}
+            a, c = _ev_tree(got, env), _ev_tree(want, env)
+            if a is None or c is None: return 'not evaluable at Q=%d, L=%d' % (q, l)
+            if a != c: return 'Q=%d, L=%d: %d, the reconstruction formula gives %d' % (q, l, a, c)
+    return None
 
 
 def b_no_overflow(ck, F):
